@@ -25,7 +25,7 @@ func runC10(p *Prog, r *Report) {
 	if want("C10.2") {
 		r.Begin("C10.2", "E-GUARD", "unlockWrite: the ack loop sends the group's result `merged` times; the hand-off happens only when overflow, the plain release only when not", 3)
 		if fn := resolveFn(p, r, "leveldb", "(*DB).unlockWrite"); fn != nil {
-			overflow := boolAtom("overflow", func(v ssa.Value) bool { pa, ok := v.(*ssa.Parameter); return ok && pa.Name() == "overflow" })
+			overflow := boolAtom("overflow", func(v ssa.Value) bool { pa, ok := v.(*ssa.Parameter); return ok && paramRefName(pa) == "overflow" })
 			handoff := func(in ssa.Instruction) bool {
 				s, ok := in.(*ssa.Send)
 				if !ok || !isFieldLoad(s.Chan, tDB, "writeMergedC") {
@@ -55,7 +55,7 @@ func runC10(p *Prog, r *Report) {
 			// ack loop: guarded by i < merged, sends the err parameter, i advances by one
 			var mergedP, errP *ssa.Parameter
 			for _, pa := range fn.Params {
-				if pa.Name() == "merged" {
+				if paramRefName(pa) == "merged" {
 					mergedP = pa
 				}
 				if isErrorType(pa.Type()) {
@@ -174,7 +174,7 @@ func runC10(p *Prog, r *Report) {
 			// sync flag plumbing
 			var syncP *ssa.Parameter
 			for _, pa := range fn.Params {
-				if pa.Name() == "sync" {
+				if paramRefName(pa) == "sync" {
 					syncP = pa
 				}
 			}
@@ -420,7 +420,7 @@ func ruleGroupResultConsistent(p *Prog, r *Report, rule string) {
 func groupNotYetSync(fn *ssa.Function) EdgeFilter {
 	var syncP *ssa.Parameter
 	for _, pa := range fn.Params {
-		if pa.Name() == "sync" && isBoolType(pa.Type()) {
+		if paramRefName(pa) == "sync" && isBoolType(pa.Type()) {
 			syncP = pa
 		}
 	}
